@@ -447,10 +447,27 @@ class C04(Spec):
         if i % 6 == 4:
             plan = SPECS["C20"].gen(r, tier, 4 * r.randrange(1000))  # the hedge family: UpdateRisk + HedgeRisks on unit-risk tables
             plan["cfg"]["obs_eod"] = False
+        elif i % 6 == 1:
+            plan = drive_engine.gen_frame_gate_plan(r, tier)
         else:
             plan = drive_engine.gen_all_algos_plan(r, tier, stateful=True)
         n = len(plan["feed"]["dates"])
         plan["cuts"] = [[r.randint(0, n - 2), r.choice(["scale", "redraw", "nan", "zero", "mixed"]), r.randrange(1 << 30)] for _ in range(4)]
+        # place one cut at a boundary that matters: inside the empty stretch at the head of a supplied frame (the first values
+        # that exist are then dated after the cut - anything that reaches for "the nearest value" finds the future)
+        leads = []
+        for _k, fr in sorted((plan.get("extra") or {}).items()):
+            if fr.get("kind") == "frame" and not fr.get("rows") and fr.get("dtype") in (None, "float"):
+                ld = 0
+                while ld < len(fr["data"]) and all(x is None for x in fr["data"][ld]):
+                    ld += 1
+                if 1 <= ld < len(fr["data"]):
+                    leads.append(ld)
+        if leads:
+            ld = r.choice(leads)
+            plan["cuts"][0][0] = min(n - 2, r.randint(max(0, ld - 3), ld - 1))
+            plan["cuts"][0][1] = r.choice(["scale", "redraw"])
+            plan.setdefault("fired", {})["cut_inside_leading_gap"] = 1
         plan["seed"] = r.randrange(1 << 30)
         return plan
 
@@ -557,6 +574,20 @@ class C09(Spec):
             names = r.sample(tickers, r.randint(1, len(tickers)))
             child["children"] = [{"k": "X", "name": t, "cls": "Security", "mult": 1.0, "decl": r.choice(["str", "obj"])} for t in names]
             drive_engine._restrict(child, names)
+        if r.random() < 0.25 and not risk:
+            # three levels: the child allocates between its own sub-strategies and may pick them by *their* price indices
+            # (inside the child's paper copy those grandchildren need their own paper copies to carry an index at all)
+            gap = drive_engine.max_gap_days(dates)
+            gkids = []
+            for gi in range(2):
+                gn = r.sample(tickers, r.randint(1, len(tickers)))
+                gkids.append({"k": "S", "name": "g%d" % gi, "cls": "Strategy", "fi": False, "how": "list", "children": [{"k": "X", "name": t, "cls": "Security", "mult": 1.0, "decl": r.choice(["str", "obj"])} for t in gn],
+                              "algos": [drive_engine.sched_spec(r, dates), {"a": "SelectAll"}, {"a": "WeighEqually"}, {"a": "Rebalance"}]})
+            pick = [{"a": "SelectAll"}]
+            if r.random() < 0.6:
+                pick.append({"a": "SelectMomentum", "args": [1], "kw": {"lookback": {"days": gap * r.randint(1, 4) + r.randint(0, 3)}, "lag": {"days": r.choice([0, 0, 1])}, "sort_descending": r.random() < 0.7}})
+            child = {"k": "S", "name": "kid", "cls": "Strategy", "fi": False, "how": "list", "children": gkids, "algos": [drive_engine.sched_spec(r, dates)] + pick + [{"a": "WeighEqually"}, {"a": "Rebalance"}]}
+            fired["three_levels"] = 1
         root = {"k": "S", "name": "parent", "cls": "Strategy", "fi": False, "how": r.choice(["list", "dict"]), "children": [child]}
         others = []
         if r.random() < 0.4:
